@@ -148,15 +148,28 @@ Proof.
           | solve [destruct Hb as [A B]; split; cbn [esmtp comstate]; auto] ].
 Qed.
 
+Lemma subm_gate_esm s al s1 pre : subm_gate o s = (al, s1, pre) ->
+  keeps s s1 /\ (pre = [] \/ pre = [Reply 421]).
+Proof.
+  unfold subm_gate. destruct (o_submission o); [apply relay_decide_esm|]. intros H; inversion H; subst. split; [apply keeps_refl|auto].
+Qed.
+
 Lemma h_from_esm s arg len evs h s' : h_from o s arg len = (evs, h, s') -> has_esm evs = false /\ keeps s s'.
 Proof.
   unfold h_from. intros H.
-  repeat (match type of H with
-          | context [match ?x with _ => _ end] => destruct x eqn:?
-          | context [if ?x then _ else _] => destruct x eqn:?
-          end; try discriminate);
+  destruct (o_addr o false arg) as [| | |addr more cls]; [inversion H; subst; split; [reflexivity|split; cbn [esmtp comstate]; auto]| | |];
+    (match type of H with context [subm_gate o ?sc] =>
+       destruct (subm_gate o sc) as [[al s1] pre] eqn:Eg; destruct (subm_gate_esm _ _ _ _ Eg) as (Hb & Hpre) end);
+    (assert (Hb' : keeps s s1) by (destruct Hb as [A B]; split; cbn [esmtp comstate] in *; auto)); clear Hb;
+    (destruct pre as [|p pre'];
+     [|inversion H; subst; destruct Hpre as [E|E]; [discriminate|]; inversion E; subst; split; [reflexivity|exact Hb']]);
+    repeat (match type of H with
+            | context [match ?x with _ => _ end] => destruct x eqn:?
+            | context [if ?x then _ else _] => destruct x eqn:?
+            end; try discriminate);
     inversion H; subst; (split; [reflexivity|]);
-    first [ solve [split; cbn [esmtp comstate]; auto] | solve [apply keeps_tarpit; split; cbn [esmtp comstate]; auto] ].
+    first [ exact Hb' | solve [apply keeps_tarpit; exact Hb']
+          | solve [destruct Hb' as [A B]; split; cbn [esmtp comstate]; auto] ].
 Qed.
 
 Lemma h_data_esm f s evs h s' : h_data f o s = (evs, h, s') -> has_esm evs = false /\ keeps s s'.
